@@ -61,6 +61,7 @@ type wscript struct {
 	code   codes.Code
 	emsg   string
 	mutate bool // the sender scribbles over a message right after sending it
+	mdReuse bool // the handler keeps changing the metadata map it handed to SetHeader / SendHeader / SetTrailer
 	late   bool // cancel/deadline terminals: the handler does not watch its context, it returns only when told to after the client is done
 }
 
@@ -83,11 +84,11 @@ func (s wscript) String() string {
 		}
 	}
 	term := []string{"return-ok", fmt.Sprintf("return(%s,%q)", s.code, s.emsg), "client-cancel", "deadline"}[s.term]
-	return fmt.Sprintf("%s [%s] %s mutate=%v late-handler=%v", []string{"unary", "sstream", "cstream", "bidi"}[s.shape], strings.Join(p, " "), term, s.mutate, s.late)
+	return fmt.Sprintf("%s [%s] %s mutate=%v late-handler=%v md-reuse=%v", []string{"unary", "sstream", "cstream", "bidi"}[s.shape], strings.Join(p, " "), term, s.mutate, s.late, s.mdReuse)
 }
 
 func genWrapScript(t *Tape) wscript {
-	s := wscript{shape: t.Choose(4), term: t.Choose(4), mutate: t.Flag(1, 3), late: t.Flag(1, 3)}
+	s := wscript{shape: t.Choose(4), term: t.Choose(4), mutate: t.Flag(1, 3), late: t.Flag(1, 3), mdReuse: t.Flag(1, 3)}
 	s.code = []codes.Code{codes.NotFound, codes.InvalidArgument, codes.Internal, codes.Unavailable, codes.PermissionDenied, codes.Aborted}[t.Choose(6)]
 	s.emsg = []string{"boom", "", "not here"}[t.Choose(3)]
 	n := t.Choose(6)
@@ -239,6 +240,7 @@ func (sv *scriptServer) run(st srvStream, ctx context.Context, recv func() (stri
 			} else {
 				_ = grpc.SendHeader(ctx, md)
 			}
+			sv.scribbleMD(md)
 		case rSetHdr:
 			md := metadata.Pairs(r.k, r.v)
 			if st != nil {
@@ -246,6 +248,7 @@ func (sv *scriptServer) run(st srvStream, ctx context.Context, recv func() (stri
 			} else {
 				_ = grpc.SetHeader(ctx, md)
 			}
+			sv.scribbleMD(md)
 		case rSetTrailer:
 			md := metadata.Pairs(r.k, r.v)
 			if st != nil {
@@ -253,6 +256,7 @@ func (sv *scriptServer) run(st srvStream, ctx context.Context, recv func() (stri
 			} else {
 				_ = grpc.SetTrailer(ctx, md)
 			}
+			sv.scribbleMD(md)
 		}
 	}
 	sv.yield("srv-term")
@@ -270,6 +274,18 @@ func (sv *scriptServer) run(st srvStream, ctx context.Context, recv func() (stri
 		return status.FromContextError(ctx.Err()).Err()
 	}
 	return nil
+}
+
+// scribbleMD: a handler may go on using (and changing) the map it passed to the metadata calls; like a real gRPC
+// connection the wrapper must have taken what it needs at the time of the call.
+func (sv *scriptServer) scribbleMD(md metadata.MD) {
+	if !sv.s.mdReuse {
+		return
+	}
+	for k := range md {
+		md[k] = []string{"changed-after-the-call"}
+	}
+	md["x-added-later"] = []string{"1"}
 }
 
 func (sv *scriptServer) Unary(ctx context.Context, req *testproto.UnaryRequest) (*testproto.UnaryResponse, error) {
